@@ -4,12 +4,15 @@ pub mod common;
 pub mod frontend;
 pub mod lalr;
 pub mod misc;
+pub mod total;
 
 use crate::engine::{Ctx, Failure};
 
 pub fn run(ctx: &Ctx) -> i32 {
     match ctx.prop.as_str() {
         "C04" => lalr::c04_run(ctx),
+        "C07" => total::c07_run(ctx),
+        "C14" => total::c14_run(ctx),
         "C08" => frontend::c08_run(ctx),
         "C09" => frontend::c09_run(ctx),
         "C10" => frontend::c10_run(ctx),
@@ -30,6 +33,8 @@ pub fn run(ctx: &Ctx) -> i32 {
 fn replay_fn(prop: &str) -> Option<fn(&serde_json::Value) -> Result<(), Failure>> {
     Some(match prop {
         "C04" => lalr::c04_replay,
+        "C07" => total::c07_replay,
+        "C14" => total::c14_replay,
         "C08" => frontend::c08_replay,
         "C09" => frontend::c09_replay,
         "C10" => frontend::c10_replay,
@@ -83,6 +88,6 @@ pub fn replay(ctx: &Ctx, path: &str) -> i32 {
     }
 }
 
-pub fn worker(_args: &[String]) -> i32 {
-    2
+pub fn worker(args: &[String]) -> i32 {
+    total::worker(args)
 }
